@@ -6,9 +6,15 @@ import re
 # which opcodes can raise: every numeric decode and every pop; their throw sites are obligations of the step queries (exception raised
 # only where prescribed); here: the run-to-completion path handles every one of them
 from props import units_main as UM
-STDIN = Query('main_stdin_script', 'harness', UM.unit_stdin, 'h_stdin_script', unwind=204, timeout=2400, extra_cbmc=['--max-field-sensitivity-array-size', '1100'],
-              functions=['btcdeb.cpp: main() - the fragment that reads the script from standard input (fgets, terminator stripping, strdup)'], bounded='input lines of at most 18 characters plus terminator')
-QUERIES = [STDIN, L.SETUP, L.CONTINUE, L.INSTANCE_STEP] + [q for q in C01.QUERIES if q.tier == 'quick' and re.match(r'step_(unary_8b|addsub_93|within_a5|cltv_b1|pickroll_79_n2)$', q.name)]
+from props import units_batch as UB
+FMAIN = ['btcdeb.cpp: main() (fragment: the stdin script reader, `if (pipe_in) { ... }`)']
+STDIN = Query('main_stdin_script', 'harness', UB.unit_stdin_short, 'h_stdin_script2', unwind=40, timeout=900, object_bits=10, functions=FMAIN,
+              bounded='input lines of at most 18 characters, compared byte by byte (longer lines: main_stdin_long, by length)')
+STDIN_LONG = Query('main_stdin_long', 'harness', UB.unit_stdin_long, 'h_stdin_long', defines=['VERIF_LINE_MAX=1100'], unwind=8, timeout=2400, object_bits=10, functions=FMAIN,
+                   bounded='input lines of at most 1100 characters, modelled by length plus first / last characters (a maximal 520-byte push is 1040 characters)')
+BATCH = Query('main_batch_driver', 'harness', UB.unit_batch, 'h_batch_driver', unwind=4, timeout=600, object_bits=10,
+              functions=['btcdeb.cpp: main() (fragment: the non-interactive driver, `if (pipe_in || pipe_out) { ... }`)'])
+QUERIES = [STDIN, STDIN_LONG, BATCH, L.SETUP, L.CONTINUE, L.INSTANCE_STEP] + [q for q in C01.QUERIES if q.tier == 'quick' and re.match(r'step_(unary_8b|addsub_93|within_a5|cltv_b1|pickroll_79_n2)$', q.name)]
 META = {'level': 'other', 'trusted_base': TRUSTED,
  'assumptions': ASSUME_COMMON + [
    "also claimed: the stdin script reader fragment of main() (the script is the input line without its LF / CRLF terminator, empty on no input) with fgets / strdup as stubs",
@@ -17,7 +23,7 @@ META = {'level': 'other', 'trusted_base': TRUSTED,
  ],
  'explanation': 'contract "no exception escapes, success only when finished" on the real ContinueScript and Instance::step with exception propagation encoded as a ghost flag (R-EXC); the raising sites themselves are obligations of the step queries; division/shift traps of the re-enabled opcodes are obligations of C17'}
 MANIFEST = {
- 'text': 'Abnormal-termination clause (plus: the session setup_environment creates is finished at once only when there is nothing to execute, so an empty scriptSig never turns a failing scriptPubKey into an empty success): for every session state the real ContinueScript (the non-interactive driver) and Instance::step let no interpreter exception (script number overflow, non-minimal number, empty-stack pop, out_of_range) escape and report success only for a finished session; the places where the interpreter raises are pinned by the step contracts re-run here.',
+ 'text': 'Non-interactive driver block of main(): exit status 0 only for a session that ran to completion and printed its final stack once in raw form, otherwise the error is reported on stderr and the status is 1. Script on stdin: taken whole, whatever its length (up to 1100 characters by length, 18 byte by byte), without its LF / CRLF terminator. Abnormal-termination clause (plus: the session setup_environment creates is finished at once only when there is nothing to execute, so an empty scriptSig never turns a failing scriptPubKey into an empty success): for every session state the real ContinueScript (the non-interactive driver) and Instance::step let no interpreter exception (script number overflow, non-minimal number, empty-stack pop, out_of_range) escape and report success only for a finished session; the places where the interpreter raises are pinned by the step contracts re-run here.',
  'note': 'Not claimed: exit status, output format, tty detection, --quiet/--debug independence (whole-process properties of a 500-line main()).',
  'technique': 'assume/assert exception-escape contract on the real ContinueScript / Instance::step (R-EXC flag encoding), callee replaced by a may-raise contract; CBMC',
  'design_ref': 'DESIGN.md 6 (C08)'}
